@@ -4,7 +4,7 @@ namespace vf {
 const char *ntC17 = "non-trivial = case with at least one field exactly at or beyond a capacity limit; distinct by the set of (limit, value) pairs";
 CaseResult runC17(const Case &c, RunCtx &ctx) {
     CaseResult r;
-    Interp in(ctx);
+    Interp in(ctx, "C17");
     std::string key; bool any = false;
     struct L17 : Listener { std::string &key; bool &any; L17(std::string &k, bool &a) : key(k), any(a) {}
         void after(Interp &, const Op &op, size_t, const Outcome &o) override { if (op.code == "limit" && !o.skipped) { key += o.note + (o.threw ? "!" + o.cls : "") + ";"; any = true; } } } L(key, any);
